@@ -1,13 +1,29 @@
 package main
 
-import "time"
-
 func simple(id, module, pkg string, shards int) *prop {
 	return &prop{id: id, module: module, pkg: pkg, level: "exploration",
 		runs: []runSpec{{name: "main", test: "^TestVerif" + id + "$", shards: shards}}}
 }
 
 func init() {
-	register(simple("C07", "kernel", "mm/vmm", 1))
-	_ = time.Second
+	register(simple("C01", "kernel", "mm/pmm", 8))
+	register(simple("C02", "kernel", "mm/pmm", 8))
+	register(simple("C03", "kernel", "mm/pmm", 8))
+	register(simple("C04", "kernel", "mm/vmm", 16))
+	register(simple("C05", "kernel", "mm/vmm", 8))
+	register(simple("C06", "kernel", "mm/vmm", 8))
+	register(simple("C07", "kernel", "mm/vmm", 4))
+	register(simple("C10", "kernel", "multiboot", 8))
+	register(simple("C11", "kernel", "device/acpi/aml", 16))
+	register(simple("C12", "kernel", "device/acpi/aml", 16))
+	register(simple("C13", "kernel", "device/acpi/aml", 8))
+	register(simple("C14", "kernel", "device/acpi", 8))
+	register(simple("C15", "kernel", "kfmt", 8))
+	c16 := simple("C16", "kernel", "hal", 8)
+	c16.runs = append(c16.runs, runSpec{name: "ring", pkg: "kfmt", test: "^TestVerifC16Ring$", shards: 4})
+	register(c16)
+	register(simple("C17", "kernel", "device/tty", 8))
+	register(simple("C18", "kernel", "device/tty", 8))
+	register(simple("C19", "kernel", "device/video/console", 16))
+	register(simple("C20", "kbuild", ".", 4))
 }
